@@ -91,6 +91,7 @@ class Form(object):
 
 FORMS = []
 BY_NAME = {}
+KIND = {'tuple': 'list', 'iter': 'iterator', 'set': 'set', 'dict': 'dict'}     # presentation -> kind of value
 
 
 def F(name, tmpl, model, recv='iterable', out=None, fn=None, unordered=False, pres_arg=False, pipe=True, **params):
@@ -155,7 +156,8 @@ F('where', '{c}.where({p})', M.where, out='seq', p='pred')
 F('filter', '{c}.filter({p})', M.where, out='seq', fn='where', pipe=False, p='pred')
 F('select', '{c}.select({p})', M.select, out='seq', p='lam')
 F('map', '{c}.map({p})', M.select, out='seq', fn='select', pipe=False, p='lam')
-F('attribution', '{c}.select(dict(a => $, b => 1)).a', lambda c: list(c), out='seq', fn='collection_attribution')
+F('attribution', '{c}.select(dict(a => $, b => 1)).a', lambda c: M.attribution([{'a': x, 'b': 1} for x in c], 'a'), out='seq',
+  fn='collection_attribution')
 F('skip', '{c}.skip({i})', M.skip, out='seq', i='int')
 F('take', '{c}.take({i})', M.take, out='seq', fn='limit', i='int')
 F('limit', '{c}.limit({i})', M.take, out='seq', pipe=False, i='int')
@@ -238,9 +240,9 @@ F('reduce', '{c}.reduce({q}, {v})', M.aggregate, fn='aggregate', pipe=False, q='
 F('accumulate', '{c}.accumulate({q})', M.accumulate, out='seq', q='lam2')
 F('accumulate-seed', '{c}.accumulate({q}, {v})', M.accumulate, out='seq', fn='accumulate', q='lam2', v='val')
 F('reverse', '{c}.reverse()', M.reverse, out='seq')
-F('isIterable', 'isIterable({c})', lambda c: True, fn='is_iterable', pipe=False)
-F('isIterable-scalar', 'isIterable({v})', lambda v: False, recv='none', fn='is_iterable', v='val')
-F('isIterable-dict', 'isIterable({c})', lambda d: False, recv='dict', fn='is_iterable')
+F('isIterable', 'isIterable({c})', lambda c, pres: M.is_iterable_kind(KIND[pres]), fn='is_iterable', pres_arg=True, pipe=False)
+F('isIterable-scalar', 'isIterable({v})', lambda v: M.is_iterable_kind('scalar'), recv='none', fn='is_iterable', v='val')
+F('isIterable-dict', 'isIterable({c})', lambda d: M.is_iterable_kind('dict'), recv='dict', fn='is_iterable')
 F('generate', 'generate({i}, {p}, {f})', M.generate, recv='none', i='int', p='gp', f='gf')
 F('generate-selector', 'generate({i}, {p}, {f}, {s})', M.generate, recv='none', fn='generate', i='int', p='gp', f='gf', s='gs')
 F('generate-decycle', 'generate({i}, {p}, {f}, decycle => true)', lambda i, p, f: M.generate(i, p, f, None, True),
@@ -310,11 +312,11 @@ F('plus-left', '{o} + {c}', lambda c, o, pres: M.plus(o, frozenset(c) if pres ==
 F('times', '{c} * {i}', M.times, recv='sequence', fn='list_by_int', i='int')
 F('times-left', '{i} * {c}', M.times, recv='sequence', fn='int_by_list', i='int')
 F('plus-dict', '{c} + {d}', M.plus, recv='dict2', fn='combine_dicts')
-F('isList', 'isList({c})', lambda c, pres: pres == 'tuple', fn='is_list', pres_arg=True, pipe=False)
-F('isDict', 'isDict({c})', lambda c: False, fn='is_dict', pipe=False)
-F('isSet', 'isSet({c})', lambda c, pres: pres == 'set', fn='is_set', pres_arg=True, pipe=False)
-F('isDict-dict', 'isDict({c})', lambda d: True, recv='dict', fn='is_dict')
-F('isList-dict', '[isList({c}), isSet({c})]', lambda d: [False, False], recv='dict', fn='is_list')
+F('isList', 'isList({c})', lambda c, pres: M.is_list(KIND[pres]), fn='is_list', pres_arg=True, pipe=False)
+F('isDict', 'isDict({c})', lambda c, pres: M.is_dict(KIND[pres]), fn='is_dict', pres_arg=True, pipe=False)
+F('isSet', 'isSet({c})', lambda c, pres: M.is_set(KIND[pres]), fn='is_set', pres_arg=True, pipe=False)
+F('isDict-dict', 'isDict({c})', lambda d: M.is_dict('dict'), recv='dict', fn='is_dict')
+F('isList-dict', '[isList({c}), isSet({c})]', lambda d: [M.is_list('dict'), M.is_set('dict')], recv='dict', fn='is_list')
 F('len-dict', '{c}.len()', lambda d: len(d), recv='dict', fn='dict_len')
 F('delete', '{c}.delete({i}, {j})', M.delete, out='seq', i='int', j='int')
 F('delete1', '{c}.delete({i})', M.delete, out='seq', fn='delete', pipe=False, i='int')
@@ -349,7 +351,8 @@ F('set-gt', '{c} > {d}', lambda a, b: M.set_lt(b, a), recv='set2', fn='set_gt')
 F('set-ge', '{c} >= {d}', lambda a, b: M.set_le(b, a), recv='set2', fn='set_gte')
 F('add', '{c}.add({v}, {w})', M.set_add, recv='set', fn='set_add', v='val', w='val')
 F('remove', '{c}.remove({v}, {w})', M.set_remove, recv='set', fn='set_remove', v='val', w='val')
-F('isSet-set', '[isSet({c}), isList({c}), isDict({c})]', lambda s: [True, False, False], recv='set', fn='is_set')
+F('isSet-set', '[isSet({c}), isList({c}), isDict({c})]', lambda s: [M.is_set('set'), M.is_list('set'), M.is_dict('set')], recv='set',
+  fn='is_set')
 
 # -- system.py ----------------------------------------------------------------
 F('unpack', '{c}.unpack() -> [$1, $2, $3, $4, $5]', lambda c: M.unpack(c, [], 5), pipe=False)
@@ -491,24 +494,29 @@ def label(obs):
                        'dict' if isinstance(v, dict) else 'scalar')
 
 
-def run_case(res, form, args, unit):
-    """Execute and judge one single-operator case; returns nothing."""
-    pres, enc = unit[0], unit[1]
-    text = form.text(args)
-    res.case(('single', text, unit))
-    variables = {}
-    c = d = None
+def inputs(form, unit):
+    """(yaql variables, model receiver, second model receiver) of a unit."""
+    pres = unit[0]
+    variables, c, d = {}, None, None
     if pres != 'none':
-        variables['c'] = build(pres, enc)
-        c = model_input(pres, enc, variables['c'])
-        if pres == 'set' and form.recv in ('set', 'set2'):
+        variables['c'] = build(pres, unit[1])
+        c = model_input(pres, unit[1], variables['c'])
+        if form.recv in ('set', 'set2'):
             c = frozenset(c)
     if len(unit) == 3:
         variables['d'] = build(pres, unit[2])
         d = model_input(pres, unit[2], variables['d'])
         if pres == 'set':
             d = frozenset(d)
-    exp, why = form.expected(c, args, pres, d)
+    return variables, c, d
+
+
+def run_case(res, form, args, unit):
+    """Execute and judge one single-operator case."""
+    text = form.text(args)
+    res.case(('single', text, unit))
+    variables, c, d = inputs(form, unit)
+    exp, why = form.expected(c, args, unit[0], d)
     if exp is None and why.startswith('endless'):
         res.out_of_domain += 1
         res.outcomes['ood (not executed: endless)'] += 1
@@ -523,7 +531,7 @@ def run_case(res, form, args, unit):
     res.nontrivial += 1
     res.outcomes[label(obs)] += 1
     if not agree(obs, exp, form.unordered):
-        res.fail('model-mismatch fn=%s recv=%s' % (form.fn, pres),
+        res.fail('model-mismatch fn=%s recv=%s' % (form.fn, unit[0]),
                  {'kind': 'single', 'form': form.name, 'args': args, 'unit': list(unit)},
                  '%s: observed %r expected %r' % (text, obs, exp))
 
@@ -547,10 +555,8 @@ def job_single(tier, k, njobs):
                 run_case(res, form, args, unit)
         per_form[form.name] = res.nontrivial - before
         if us and k == 0 and form.name in ('skip', 'orderBy', 'groupBy', 'union'):
-            u = us[min(len(us) - 1, 7)]
-            a = next(arg_combos(form, 2))
-            res.sample({'text': form.text(a), 'input': repr(u), 'observed': repr(observe(
-                form.text(a), **({'c': build(u[0], u[1])} if len(u) == 2 else {'c': build(u[0], u[1]), 'd': build(u[0], u[2])})))})
+            u, a = us[min(len(us) - 1, 7)], next(arg_combos(form, 2))
+            res.sample({'text': form.text(a), 'input': repr(u), 'observed': repr(observe(form.text(a), **inputs(form, u)[0]))})
     res.extra['judged_per_form'] = per_form
     return res
 
@@ -839,26 +845,18 @@ def finish(total, tier):
 def replay(case):
     k = case['kind']
     if k == 'single':
-        form, unit = BY_NAME[case['form']], case['unit']
-        res = Result()
-        run_case(res, form, case['args'], tuple(unit))
-        text = form.text(case['args'])
-        variables = {}
-        if unit[0] != 'none':
-            variables['c'] = build(unit[0], unit[1])
-        if len(unit) == 3:
-            variables['d'] = build(unit[0], unit[2])
-        f = list(res.failures.values())
-        return {'text': text, 'input': unit, 'observed': repr(observe(text, **variables)),
-                'expected': f[0].detail if f else 'agrees with the model (or out of domain)', 'ok': not f}
+        form, unit = BY_NAME[case['form']], tuple(case['unit'])
+        variables, c, d = inputs(form, unit)
+        exp, why = form.expected(c, case['args'], unit[0], d)
+        obs = observe(form.text(case['args']), **variables)
+        return {'text': form.text(case['args']), 'input': list(unit), 'observed': repr(obs),
+                'expected': repr(exp) if exp else 'out of domain: ' + why, 'ok': exp is None or agree(obs, exp, form.unordered)}
     if k == 'pipe':
         ops = [(n, a) for n, a in case['ops']]
-        res = Result()
-        run_pipe(res, ops, case['seq'], case['pres'])
-        f = list(res.failures.values())
-        return {'text': pipe_text(ops), 'input': [case['pres'], case['seq']],
-                'observed': repr(observe(pipe_text(ops), c=build(case['pres'], case['seq']))),
-                'expected': repr(pipe_expected(ops, case['seq'], case['pres'])), 'ok': not f}
+        exp = pipe_expected(ops, case['seq'], case['pres'])
+        obs = observe(pipe_text(ops), c=build(case['pres'], case['seq']))
+        return {'text': pipe_text(ops), 'input': [case['pres'], case['seq']], 'observed': repr(obs), 'expected': repr(exp),
+                'ok': exp is None or agree(obs, exp, BY_NAME[ops[-1][0]].unordered)}
     if k == 'law':
         res = Result()
         if case['law'] == 'sequence':
